@@ -3,6 +3,9 @@ package main
 // Evaluation of contract expressions into SMT terms, against a symbolic state.
 
 import (
+	"runtime/debug"
+	"os"
+	"strconv"
 	"fmt"
 	"go/constant"
 	"go/types"
@@ -25,10 +28,11 @@ type Env struct {
 	useEntryParams bool
 	inOld bool
 	monitorAssume bool // evaluating a monitor invariant that is being ASSUMED at Lock
+	loopFr *Frame // frame whose loop-entry snapshots atloop() refers to (survives predicate expansion)
 }
 
 func (fc *FuncCtx) newEnv(fr *Frame, st, old *State) *Env {
-	ev := &Env{fc: fc, st: st, old: old, vars: map[string]Value{}, fr: fr, pkg: fc.pkgPath}
+	ev := &Env{fc: fc, st: st, old: old, vars: map[string]Value{}, fr: fr, loopFr: fr, pkg: fc.pkgPath}
 	if fr != nil && fr.fn.Pkg != nil {
 		ev.pkg = fr.fn.Pkg.Pkg.Path()
 	}
@@ -54,6 +58,9 @@ func (ev *Env) fail(f string, a ...interface{}) {
 }
 
 func (ev *Env) evalBool(e Expr) string {
+	if os.Getenv("SFDEBUG") != "" {
+		fmt.Fprintf(os.Stderr, "evalBool %s\n", clipStr(e.String(), 200))
+	}
 	v := ev.eval(e)
 	sc, ok := v.(Scalar)
 	if !ok || sc.Sort != "Bool" {
@@ -99,6 +106,12 @@ func (ev *Env) asScalar(v Value) Scalar {
 		}
 	case ClosureV:
 		return Scalar{x.ID, "Int", nil}
+	}
+	if os.Getenv("SFDEBUG") == "stack" {
+		debug.PrintStack()
+	}
+	if sv, ok := v.(StructV); ok && sv.Typ != nil {
+		ev.fail("expected scalar, got a struct value of type %s", sv.Typ.String())
 	}
 	ev.fail("expected scalar, got %T", v)
 	return Scalar{}
@@ -259,6 +272,14 @@ func (ev *Env) resolveSpecType(txt string) (types.Type, string) {
 			return types.NewPointer(t), "Int"
 		}
 		return nil, "Int"
+	}
+	if strings.HasPrefix(txt, "[]") {
+		// slice parameter of a spec function: passed as (base, off, len)
+		t, _ := ev.resolveSpecType(txt[2:])
+		if t == nil {
+			ev.fail("slice of %q is not a Go type", txt[2:])
+		}
+		return types.NewSlice(t), "SLICE"
 	}
 	if t := fc.eng.lookupType(ev.pkg, txt); t != nil {
 		return t, fc.sortOf(t)
@@ -972,6 +993,29 @@ func (ev *Env) evalCall(x *ECall) Value {
 		v := arg(0)
 		ev.inOld, ev.useEntryParams = saved, savedE
 		return v
+	case "atloop":
+		// atloop(k, e): e evaluated in the HEAP in which loop k of this function was entered (current locals)
+		if len(x.Args) != 2 || ev.loopFr == nil {
+			ev.fail("atloop(k, e) needs a loop ordinal and an expression")
+		}
+		lit, ok := x.Args[0].(*ELit)
+		if !ok || lit.Kind != "int" {
+			ev.fail("atloop: first argument must be a literal loop ordinal")
+		}
+		k, _ := strconv.Atoi(lit.Val)
+		snap := ev.loopFr.loopEntry[k]
+		if snap == nil {
+			ev.fail("atloop(%d, ...): loop %d has not been entered on this path", k, k)
+		}
+		// the heap as it was when the loop was entered; locals, ghosts and bound variables keep their current values
+		hy := snap.clone()
+		cur := ev.cur()
+		hy.locals, hy.ghost, hy.pc = cur.locals, cur.ghost, cur.pc
+		savedSt, savedOld, savedIn := ev.st, ev.old, ev.inOld
+		ev.st, ev.old, ev.inOld = hy, hy, false
+		v := ev.eval(x.Args[1])
+		ev.st, ev.old, ev.inOld = savedSt, savedOld, savedIn
+		return v
 	case "len", "cap":
 		v := arg(0)
 		switch b := v.(type) {
@@ -1267,6 +1311,14 @@ func (ev *Env) callSpec(sf *SpecFunc, x *ECall) Value {
 	for i, a := range x.Args {
 		v := ev.eval(a)
 		_, srt := ev.resolveSpecType(sf.Params[i].Type)
+		if srt == "SLICE" {
+			sv, ok := v.(SliceV)
+			if !ok {
+				ev.fail("argument %d of %s must be a slice", i+1, sf.Name)
+			}
+			args = append(args, sv.Base, sv.Off, sv.Len)
+			continue
+		}
 		if l, ok := v.(LitV); ok {
 			args = append(args, ev.litTo(l, Scalar{Sort: srt}).T)
 			continue
@@ -1292,6 +1344,20 @@ func (ev *Env) callSpec(sf *SpecFunc, x *ECall) Value {
 			}
 		}
 		args = append(args, sc.T)
+	}
+	if sf.Heap {
+		// the heap components the body reads, taken from the state the application is evaluated in
+		var tm *heapTemplate
+		if fc.recSelf == sf.Name {
+			tm = fc.recHeap // nil during the discovery pass: the recursive occurrence reads what the body reads
+		} else {
+			tm = fc.u.specHeap[sf.Name]
+		}
+		if tm != nil {
+			for i, k := range tm.keys {
+				args = append(args, fc.compTerm(ev.cur(), k, tm.sorts[i]))
+			}
+		}
 	}
 	rt, rs := ev.resolveSpecType(sf.Result)
 	if len(args) == 0 {
@@ -1319,16 +1385,49 @@ func (fc *FuncCtx) declareSpec(sf *SpecFunc) string {
 	ev.old = ev.st
 	var params []string
 	var psorts []string
-	for _, p := range sf.Params {
-		t, srt := ev.resolveSpecType(p.Type)
-		pn := qsym("p!" + p.Name)
+	var pnames []string
+	addp := func(pn, srt string) {
 		params = append(params, "("+pn+" "+srt+")")
 		psorts = append(psorts, srt)
+		pnames = append(pnames, pn)
+	}
+	for _, p := range sf.Params {
+		t, srt := ev.resolveSpecType(p.Type)
+		if srt == "SLICE" {
+			b, o, l := qsym("p!"+p.Name+".base"), qsym("p!"+p.Name+".off"), qsym("p!"+p.Name+".len")
+			addp(b, "Int")
+			addp(o, fc.intSort())
+			addp(l, fc.intSort())
+			ev.vars[p.Name] = SliceV{Base: b, Off: o, Len: l, Cap: l, Elem: t.(*types.Slice).Elem()}
+			continue
+		}
+		pn := qsym("p!" + p.Name)
+		addp(pn, srt)
 		ev.vars[p.Name] = Scalar{pn, srt, t}
 	}
 	_, rs := ev.resolveSpecType(sf.Result)
 	fc.u.quant++
 	defer func() { fc.u.quant-- }()
+	if sf.Heap && !sf.Uninterp {
+		// pass 1: find the heap components the body reads; they become trailing parameters
+		tm := &heapTemplate{}
+		ev.st.tmpl = tm
+		fc.recSelf = sf.Name
+		fc.recHeap = nil
+		func() {
+			defer func() { fc.recSelf = "" }()
+			ev.eval(sf.Body)
+		}()
+		if fc.u.specHeap == nil {
+			fc.u.specHeap = map[string]*heapTemplate{}
+		}
+		fc.u.specHeap[sf.Name] = tm
+		for i, k := range tm.keys {
+			addp(qsym("hp!"+k), tm.sorts[i])
+		}
+		fc.recHeap = tm
+		defer func() { fc.recHeap = nil }()
+	}
 	if sf.Uninterp {
 		fc.u.emit("(declare-fun " + name + " (" + strings.Join(psorts, " ") + ") " + rs + ")")
 		fc.u.Assumptions["uninterpreted spec function "+sf.Name] = true
@@ -1345,10 +1444,7 @@ func (fc *FuncCtx) declareSpec(sf *SpecFunc) string {
 		body := ev.eval(sf.Body)
 		fc.recSelf = ""
 		{
-			var pn0 []string
-			for _, p := range sf.Params {
-				pn0 = append(pn0, qsym("p!"+p.Name))
-			}
+			pn0 := pnames
 			app1 := "(" + name + " " + strings.Join(pn0, " ") + ")"
 			app0 := "(" + name0 + " " + strings.Join(pn0, " ") + ")"
 			fc.u.emit("(assert (forall (" + strings.Join(params, " ") + ") (! (= " + app1 + " " + app0 + ") :pattern (" + app1 + "))))")
@@ -1360,10 +1456,7 @@ func (fc *FuncCtx) declareSpec(sf *SpecFunc) string {
 		} else {
 			bt = ev.asScalar(body).T
 		}
-		var pn []string
-		for _, p := range sf.Params {
-			pn = append(pn, qsym("p!"+p.Name))
-		}
+		pn := pnames
 		app := "(" + name + " " + strings.Join(pn, " ") + ")"
 		fc.u.emit("(assert (forall (" + strings.Join(params, " ") + ") (! (= " + app + " " + bt + ") :pattern (" + app + "))))")
 		emitted = true
